@@ -100,6 +100,8 @@ def _judge(col, case, part, op, root, before, after, allowed, exc, features, rea
            parent_mtime_ok=()):
     """features: hostile features of the case ('' = harmless by its names); reach: the trusting-writer model's
     prediction, used only to tell whether an escape is explained by those features."""
+    if features != case_features(case):
+        raise HarnessError('features of %r: %r at run time, %r from the case' % (case, features, case_features(case)))
     changes = SB.diff(before, after)
     out = SB.outside(changes, allowed, parent_mtime_ok)
     exc_name = type(exc).__name__ if exc is not None else None
@@ -576,3 +578,80 @@ def replay(ctx, case):
         run_manifest_case(ctx, case)
     else:
         raise HarnessError('unknown part %r' % (part,))
+
+
+# ------------------------------------------------------------------------------------------------ known findings
+_ESCAPE_SHAPES = ('created', 'content', 'attrs', 'dir-mtime')
+
+
+def case_features(case):
+    """The hostile features of a case computed from the case alone (same letters as the oracle module)."""
+    part = case.get('part')
+    if part in ('M', 'E'):
+        return SB.manifest_features([(k.replace(G.ABS, '/ABS'), m or 'copy') for k, m, _ in case['manifest']])
+    members = [dict(m, name=m['name'].replace(G.ABS, '/ABS'), link=(m['link'] or '').replace(G.ABS, '/ABS') or None)
+               for m in (case.get('archive') or [])]
+    if part == 'S':
+        return SB.archive_features(members)
+    feats = set()
+    links = []
+    for r in case.get('refs') or []:
+        if r == '@ARCHIVE@':
+            feats |= set(SB.archive_features(members, links))
+            continue
+        src, method = r.rsplit(':', 1)
+        name = os.path.split(src)[1]
+        if method == 'link':
+            if name not in ('', '.', '..'):
+                links.append(name)
+        elif method in ('copy', 'copyout') and name in links:
+            feats.add('L')
+    return ''.join(sorted(feats))
+
+
+def _explained_escape(f, parts):
+    """Common part of every selector: the failure is an escape (not a wrong kind of error) observed in one of
+    `parts`, every changed outside entry is a location that the hostile names / link targets of the case designate
+    (trusting-writer model), and the features recorded with the observation are those of the case."""
+    o = f.get('observed') or {}
+    case = f.get('case') or {}
+    if case.get('part') not in parts or o.get('shape') not in _ESCAPE_SHAPES:
+        return None
+    if o.get('explained_by_model') is not True or not f['sig'].endswith(':explained'):
+        return None
+    feats = case_features(case)
+    if feats != o.get('features') or 'A' in feats:
+        return None
+    return feats
+
+
+def _sel_extract_dotdot(f):
+    feats = _explained_escape(f, ('J', 'S', 'C'))
+    return feats is not None and 'N' in feats
+
+
+def _sel_extract_links(f):
+    feats = _explained_escape(f, ('J', 'S', 'C'))
+    return feats is not None and 'N' not in feats and ('S' in feats or 'H' in feats)
+
+
+def _sel_staged_link(f):
+    return _explained_escape(f, ('C', 'R')) == 'L'
+
+
+def _sel_manifest_dotdot(f):
+    feats = _explained_escape(f, ('M', 'E'))
+    return feats is not None and 'N' in feats
+
+
+def _sel_manifest_linked_key(f):
+    return _explained_escape(f, ('M', 'E')) == 'L'
+
+
+KNOWN_SELECTORS = {
+    'extract_dotdot_member_name': _sel_extract_dotdot,
+    'extract_link_members_not_inspected': _sel_extract_links,
+    'staging_through_previously_staged_link': _sel_staged_link,
+    'manifest_dotdot_key': _sel_manifest_dotdot,
+    'manifest_key_through_linked_key': _sel_manifest_linked_key,
+}
